@@ -769,6 +769,9 @@ func checkGeneric(box orb.Bound, g orb.Geometry, qs []orb.Point, tl tols) error 
 			return fmt.Errorf("clip.Geometry(%s): %v; result %s", gen.KindOf(g), err, gen.Canon(got))
 		}
 	}
+	if err := independent(box, g, got); err != nil {
+		return err
+	}
 	sure, none := somethingRemains(box, g, qs, tl)
 	if got == nil && sure {
 		return fmt.Errorf("clip.Geometry(%s) = nil although part of the input lies in the box %v: %s", gen.KindOf(g), box, gen.Canon(g))
@@ -844,6 +847,128 @@ func checkGeneric(box orb.Bound, g orb.Geometry, qs []orb.Point, tl tols) error 
 	for i, f := range layer.Features {
 		if ok, why := gen.SameBits(f.Geometry, wantF[i]); !ok {
 			return fmt.Errorf("mvt Layer.Clip feature %d = %s, want %s: %s", i, gen.Canon(f.Geometry), gen.Canon(wantF[i]), why)
+		}
+	}
+	return nil
+}
+
+// ---------------------------------------------------------------- results are values of their own
+
+// leaves lists the vertex slices a geometry is made of.
+func leaves(g orb.Geometry) [][]orb.Point {
+	var out [][]orb.Point
+	switch v := g.(type) {
+	case orb.MultiPoint:
+		out = append(out, v)
+	case orb.LineString:
+		out = append(out, v)
+	case orb.Ring:
+		out = append(out, v)
+	case orb.MultiLineString:
+		for _, l := range v {
+			out = append(out, l)
+		}
+	case orb.Polygon:
+		for _, r := range v {
+			out = append(out, r)
+		}
+	case orb.MultiPolygon:
+		for _, p := range v {
+			out = append(out, leaves(p)...)
+		}
+	case orb.Collection:
+		for _, m := range v {
+			out = append(out, leaves(m)...)
+		}
+	}
+	return out
+}
+
+// scribble overwrites every vertex of s and everything an append to s could
+// reach (its spare capacity).
+func scribble(s []orb.Point) {
+	s = s[:cap(s)]
+	for i := range s {
+		s[i] = orb.Point{-7.5e77 - float64(i), 7.5e77 + float64(i)}
+	}
+}
+
+// independent: what clip.Geometry returns is a value of its own. The same call
+// on a fresh copy of the input gives the same result; overwriting one ring /
+// line / point list of that second result (and the spare capacity behind it)
+// changes neither its siblings nor the first result; a third call still gives
+// the same result. (The INPUT may be used as scratch space by the ring
+// functions; that is documented and not looked at here.)
+func independent(box orb.Bound, g orb.Geometry, first orb.Geometry) error {
+	snap := gen.DeepCopy(first)
+	second := clip.Geometry(box, gen.DeepCopy(g))
+	if ok, why := gen.SameBits(second, snap); !ok || (second == nil) != (snap == nil) {
+		return fmt.Errorf("clip.Geometry on a fresh copy of the input gives %s, before it gave %s: %s", gen.Canon(second), gen.Canon(snap), why)
+	}
+	ls, ss := leaves(second), leaves(snap)
+	for k := range ls {
+		scribble(ls[k])
+		for j := k + 1; j < len(ls); j++ {
+			if !samePts(ls[j], ss[j]) {
+				return fmt.Errorf("overwriting part %d of the result of clip.Geometry(%s) changed its sibling part %d: %v, was %v", k, gen.KindOf(g), j, ls[j], ss[j])
+			}
+		}
+		if ok, why := gen.SameBits(first, snap); !ok {
+			return fmt.Errorf("overwriting part %d of a later result changed the earlier result of clip.Geometry(%s): %s", k, gen.KindOf(g), why)
+		}
+	}
+	third := clip.Geometry(box, gen.DeepCopy(g))
+	if ok, why := gen.SameBits(third, snap); !ok || (third == nil) != (snap == nil) {
+		return fmt.Errorf("after overwriting an earlier result clip.Geometry gives %s, before it gave %s: %s", gen.Canon(third), gen.Canon(snap), why)
+	}
+	return nil
+}
+
+// outputs collects what every clip entry point returns for the case (for the
+// concurrent test). It touches no package state of this check.
+func outputs(c Case) []orb.Geometry {
+	box := c.Box.Bound()
+	g := c.G.V
+	out := []orb.Geometry{clip.Geometry(box, gen.DeepCopy(g))}
+	var walk func(g orb.Geometry)
+	walk = func(g orb.Geometry) {
+		switch v := g.(type) {
+		case orb.Ring:
+			out = append(out, clip.Ring(box, copyRing(v)))
+		case orb.Polygon:
+			out = append(out, clip.Polygon(box, gen.DeepCopy(v).(orb.Polygon)))
+			for _, r := range v {
+				walk(r)
+			}
+		case orb.MultiPolygon:
+			out = append(out, clip.MultiPolygon(box, gen.DeepCopy(v).(orb.MultiPolygon)))
+			for _, p := range v {
+				walk(p)
+			}
+		case orb.Collection:
+			out = append(out, clip.Collection(box, gen.DeepCopy(v).(orb.Collection)))
+			for _, m := range v {
+				walk(m)
+			}
+		case orb.LineString:
+			out = append(out, clip.LineString(box, append(orb.LineString(nil), v...)))
+		case orb.MultiLineString:
+			out = append(out, clip.MultiLineString(box, gen.DeepCopy(v).(orb.MultiLineString)))
+		case orb.MultiPoint:
+			out = append(out, clip.MultiPoint(box, append(orb.MultiPoint(nil), v...)))
+		}
+	}
+	walk(g)
+	return out
+}
+
+func sameOutputs(a, b []orb.Geometry) error {
+	if len(a) != len(b) {
+		return fmt.Errorf("%d results, sequentially %d", len(a), len(b))
+	}
+	for i := range a {
+		if ok, why := gen.SameBits(a[i], b[i]); !ok || (a[i] == nil) != (b[i] == nil) {
+			return fmt.Errorf("result %d differs from the one computed alone: %s vs %s (%s)", i, gen.Canon(a[i]), gen.Canon(b[i]), why)
 		}
 	}
 	return nil
